@@ -21,6 +21,7 @@ type Term struct {
 }
 
 type Gen struct {
+	supportFuncs []string // non-recursive callees whose contracts joined the property through extendTags
 	usedASTHeight bool
 	Prog    *ssa.Program
 	Pkgs    []*ssa.Package
